@@ -59,36 +59,9 @@ End SeqFacts.
 Lemma forallb_Forall {A} (p : A -> bool) l : forallb p l = true <-> Forall (fun x => p x = true) l.
 Proof. rewrite forallb_forall, Forall_forall. tauto. Qed.
 
-(* ---------------------------------------------------------------- the reference expansion keeps binders and attached-freeness *)
+(* ---------------------------------------------------------------- the reference expansion keeps binders *)
 Section HexpFacts.
 Variable M : list mdef.
-Hypothesis NA : forall d, In d M -> forallb no_attached (mbody d) = true.
-
-Lemma inst_no_attached m acts pre b : (forall l, forallb no_attached (pre l) = forallb no_attached l) ->
-  instantiate M m acts pre = OK b -> forallb no_attached b = true.
-Proof.
-  unfold instantiate. intros Hpre. destruct (lookup_macro M m) as [d|] eqn:L; [|discriminate].
-  destruct (bind_args (mparams d) acts []) as [s|]; [|discriminate].
-  destruct (par_items _); [discriminate|]. intros [= <-].
-  rewrite no_attached_items_subst, Hpre. apply NA. apply lookup_macro_in in L. tauto.
-Qed.
-
-Lemma hexp_no_attached : forall n h k hs k', hexpand_item n M h k = OK (hs, k') -> no_attached h = true -> Forall (fun x => no_attached x = true) hs.
-Proof.
-  induction n as [|n IH]; intros h k hs k' H Hna; [discriminate|].
-  destruct h as [r a c|c|x g0 a|r a|alts|m acts]; simpl in H; try (injection H as <- <-; constructor; [assumption|constructor]).
-  - destruct (expand_alts (hexpand_item n M) alts k) as [[o s]|] eqn:E; [|discriminate]. injection H as <- <-.
-    constructor; [|constructor]. simpl. simpl in Hna.
-    assert (F : Forall (Forall (fun x => no_attached x = true)) o).
-    { eapply (expand_alts_Forall (hexpand_item n M) (fun x => no_attached x = true)); [|exact E|].
-      - intros; eapply IH; eauto.
-      - apply forallb_Forall in Hna. eapply Forall_impl; [|exact Hna]. intros a Ha. apply forallb_Forall in Ha. exact Ha. }
-    apply forallb_Forall. eapply Forall_impl; [|exact F]. intros a Ha. apply forallb_Forall. exact Ha.
-  - destruct (instantiate M m acts (map_items (set_sc (S k)))) as [b|] eqn:E; [|discriminate].
-    apply inst_no_attached in E; [|intros; apply no_attached_items_map].
-    eapply (expand_list_Forall (hexpand_item n M) (fun x => no_attached x = true)); [|exact H|apply forallb_Forall; exact E].
-    intros; eapply IH; eauto.
-Qed.
 
 Lemma expand_list_bv (H : item -> nat -> res (list item * nat)) :
   (forall it k o k', H it k = OK (o, k') -> incl (bv_item it) (bv_items o)) ->
@@ -269,19 +242,15 @@ Qed.
 
 Lemma wf_unpack d : In d M ->
   (forall i, In i (ids_items (mbody d)) -> iorg i = OMac (mname d) /\ isc i = 0 /\ user_name (iname i) = true)
-  /\ forallb no_attached (mbody d) = true
   /\ (forall i, In i (ids_items (mbody d)) -> In (iname i) (map iname (bv_items (mbody d))))
   /\ (forall m', In m' (invs_items (mbody d)) -> rk m' < rk (mname d)).
 Proof.
-  intros Hd. rewrite forallb_forall in WF. specialize (WF d Hd). unfold wf_def, wf_def_ids, wf_def_noatt, wf_def_bound, wf_def_rank in WF.
-  rewrite !andb_true_iff in WF. destruct WF as [[[W1 W2] W3] W4]. split; [|split; [|split]]; auto.
+  intros Hd. rewrite forallb_forall in WF. specialize (WF d Hd). unfold wf_def, wf_def_ids, wf_def_bound, wf_def_rank in WF.
+  rewrite !andb_true_iff in WF. destruct WF as [[W1 W3] W4]. split; [|split]; auto.
   - intros i Hi. rewrite forallb_forall in W1. apply wf_ident_spec; auto.
   - intros i Hi. rewrite forallb_forall in W3. apply mem_str_in. auto.
   - intros m' Hm. rewrite forallb_forall in W4. apply Nat.ltb_lt. auto.
 Qed.
-
-Lemma NA_all : forall d, In d M -> forallb no_attached (mbody d) = true.
-Proof. intros d Hd. apply wf_unpack; auto. Qed.
 
 (* the two instantiations of a macro body *)
 Lemma inst_rel m acts K be :
@@ -313,21 +282,19 @@ Proof.
   assert (org_is m (set_name x i) = true) by exact E. rewrite H0. simpl. rewrite (H _ _ Ex). reflexivity.
 Qed.
 
-Lemma ren_item_map R it : no_attached it = true -> (forall i, In i (ids_item it) -> R (R i) = R i) -> ren_item R it = map_item R it.
+Lemma ren_item_map R it : (forall i, In i (ids_item it) -> R (R i) = R i) -> ren_item R it = map_item R it.
 Proof.
-  induction it using item_ind'; simpl; intros Hna Hid; try reflexivity.
-  - destruct c; [|discriminate]. simpl. f_equal. apply map_ext_in. intros t Ht.
-    destruct t as [[i|p]| |]; simpl; try reflexivity. rewrite Hid; auto. rewrite app_nil_r. apply in_flat_map. exists (TV (VId i)). simpl; auto.
+  induction it using item_ind'; simpl; intros Hid; try reflexivity.
+  - f_equal. apply map_ext_in. intros t Ht.
+    destruct t as [[i|p]| |]; simpl; try reflexivity. rewrite Hid; auto. apply in_or_app; left. apply in_flat_map. exists (TV (VId i)). simpl; auto.
   - f_equal. apply map_ext_in. intros alt Ha. apply map_ext_in. intros i Hi.
     apply (FF_in _ _ H alt Ha i Hi).
-    + rewrite forallb_forall in Hna. specialize (Hna alt Ha). rewrite forallb_forall in Hna. auto.
-    + intros j Hj. apply Hid. apply in_flat_map. exists alt; split; auto. apply in_flat_map; eauto.
+    intros j Hj. apply Hid. apply in_flat_map. exists alt; split; auto. apply in_flat_map; eauto.
 Qed.
-Lemma ren_items_map R l : forallb no_attached l = true -> (forall i, In i (ids_items l) -> R (R i) = R i) -> map (ren_item R) l = map_items R l.
+Lemma ren_items_map R l : (forall i, In i (ids_items l) -> R (R i) = R i) -> map (ren_item R) l = map_items R l.
 Proof.
-  intros Hna Hid. apply map_ext_in. intros it Hit. apply ren_item_map.
-  - rewrite forallb_forall in Hna; auto.
-  - intros i Hi. apply Hid. apply in_flat_map; eauto.
+  intros Hid. apply map_ext_in. intros it Hit. apply ren_item_map.
+  intros i Hi. apply Hid. apply in_flat_map; eauto.
 Qed.
 
 Lemma org_is_spec m i : org_is m i = true <-> iorg i = OMac m.
@@ -350,7 +317,7 @@ Proof.
     destruct (expand_list (expand_item n M) be g) as [[its g1]|] eqn:El; [|discriminate].
     set (K := S k) in *.
     destruct (inst_rel m acts K be Ei) as (d & bh & L & Eh & -> & Hids & Hinv & Hbv).
-    destruct (lookup_macro_in _ _ _ L) as [Hd Hn]. destruct (wf_unpack d Hd) as (W1 & W2 & W3 & W4). rewrite Hn in *.
+    destruct (lookup_macro_in _ _ _ L) as [Hd Hn]. destruct (wf_unpack d Hd) as (W1 & W3 & W4). rewrite Hn in *.
     simpl in Hsc, Hab.
     (* facts about the identifiers of the instantiated body *)
     assert (Hbh : forall i, In i (ids_items bh) -> (isc i = K /\ iorg i = OMac m /\ user_name (iname i) = true /\ In (iname i) (map iname (bv_items (mbody d))))
@@ -399,12 +366,7 @@ Proof.
       - destruct (Sin s Hs) as [E _]. rewrite E in Hsx. injection Hsx as <-.
         apply Sout. intros Hc. apply HS_user in Hc. rewrite gname_not_user in Hc. discriminate.
       - destruct (Sout s Hs) as [E _]. congruence. }
-    assert (Hna : forallb no_attached (map_items (names_via nu1) hs) = true).
-    { rewrite no_attached_items_map. apply forallb_Forall.
-      eapply (expand_list_Forall (hexpand_item n M) (fun x => no_attached x = true)); [|exact Ehs|].
-      - intros; eapply hexp_no_attached; eauto. apply NA_all.
-      - apply forallb_Forall. apply (inst_no_attached M NA_all _ _ _ _ (fun l => no_attached_items_map _ l) Eh). }
-    rewrite (ren_items_map R _ Hna (fun i _ => Hidem i)), map_items_comp.
+    rewrite (ren_items_map R _ (fun i _ => Hidem i)), map_items_comp.
     set (nu2 := fun nm s => if Nat.eqb s K then gname nm (gs_count g1 nm) else nu1 nm s).
     assert (Hnu2 : forall i, In i (ids_items hs) -> R (names_via nu1 i) = names_via nu2 i).
     { intros i Hi. unfold R, ren, nu2, names_via. simpl.
